@@ -163,6 +163,28 @@ func runHistory(req request) (resp response) {
 		guard = "true"
 	}
 	runChunk("prelude", "GUARD = "+guard+"\n"+prelude)
+	if req.Case.Bulk > 0 {
+		// the hand-over between Go's finaliser goroutine and the runtime needs
+		// real parallelism to go wrong
+		defer runtime.GOMAXPROCS(runtime.GOMAXPROCS(8))
+		// many releasable values die per collection while the program keeps
+		// running: Go's finaliser goroutine hands them to the pool while the
+		// runtime extracts the pending ones between continuations
+		runChunk("bulk", fmt.Sprintf(`
+local id = 0
+for round = 1, %d do
+  for i = 1, %d do id = id + 1 local u = newres(id, 0) end
+  gc()
+  local x = 0
+  for i = 1, 200000 do x = x + i %% 7 end
+  gc()
+  for i = 1, 100000 do x = x + i %% 5 end
+end
+log("bulk-created", id)
+`, req.Case.BulkRounds, req.Case.Bulk))
+		goGC(3)
+		runChunk("bulk-tail", "local x = 0 for i = 1, 30000 do x = x + i % 3 end")
+	}
 	for i, s := range req.Case.Stmts {
 		lg.add("step " + strconv.Itoa(i+1))
 		switch s.Op {
